@@ -48,6 +48,8 @@ type boxInfo struct {
 type heapInfo struct {
 	name string // e.g. "cty.unknownType", "Arr<Any>", "Map<String~Any>"
 	elem string // SMT sort of content
+	kind int        // 0 pointee, 1 slice backing array, 2 map
+	typ  types.Type // pointee type / element type / map type
 }
 
 func newSorts() *Sorts {
@@ -239,18 +241,27 @@ func (s *Sorts) heapForPointee(t types.Type) string {
 	srt := s.sortOf(t)
 	name := sortTag(srt)
 	s.declHeap(name, srt)
+	if s.heaps[name].typ == nil {
+		s.heaps[name].kind, s.heaps[name].typ = 0, t
+	}
 	return name
 }
 func (s *Sorts) heapForSliceElem(t types.Type) string {
 	srt := s.sortOf(t)
 	name := "Arr<" + sortTag(srt) + ">"
 	s.declHeap(name, "(Array Int "+srt+")")
+	if s.heaps[name].typ == nil {
+		s.heaps[name].kind, s.heaps[name].typ = 1, t
+	}
 	return name
 }
 func (s *Sorts) heapForMap(m *types.Map) string {
 	mc := s.mapContent(m)
 	name := mc
 	s.declHeap(name, mc)
+	if s.heaps[name].typ == nil {
+		s.heaps[name].kind, s.heaps[name].typ = 2, m
+	}
 	return name
 }
 func (s *Sorts) declHeap(name, elem string) {
@@ -456,4 +467,67 @@ func sortedKeys(m map[string]bool) []string {
 	}
 	sort.Strings(ks)
 	return ks
+}
+
+// nonFresh renders "every address embedded in term (of Go type t) is that of a pre-existing object (>= 0)".
+// Interfaces are covered to a fixed depth through the defined predicates nf0.Any / nf.Any.
+func (s *Sorts) nonFresh(t types.Type, term string, depth int, anyPred string) string {
+	t = types.Unalias(t)
+	switch u := t.Underlying().(type) {
+	case *types.Pointer, *types.Map:
+		return "(>= " + term + " 0)"
+	case *types.Slice:
+		return "(>= (Slice.ptr " + term + ") 0)"
+	case *types.Interface:
+		if anyPred == "" {
+			return ""
+		}
+		return "(" + anyPred + " " + term + ")"
+	case *types.Struct:
+		if depth > 3 {
+			return ""
+		}
+		name := s.sortOf(t)
+		info := s.structs[name]
+		var parts []string
+		for i, f := range info.fields {
+			if p := s.nonFresh(f.typ, "("+s.fieldSel(name, i)+" "+term+")", depth+1, anyPred); p != "" {
+				parts = append(parts, p)
+			}
+		}
+		_ = u
+		return and(parts...)
+	}
+	return ""
+}
+
+// nonFreshDecls: the predicates on Any and the closed-world axioms of the frozen heaps: an object
+// that existed before the activation (address >= 0) only refers to objects that existed before it.
+func (s *Sorts) nonFreshDecls() string {
+	var b strings.Builder
+	for lvl, pred := range []string{"nf0.Any", "nf.Any"} {
+		inner := ""
+		if lvl == 1 {
+			inner = "nf0.Any"
+		}
+		var parts []string
+		for _, k := range s.boxOrder {
+			bi := s.boxes[k]
+			if _, isIface := bi.typ.Underlying().(*types.Interface); isIface {
+				continue
+			}
+			if _, isStruct := bi.typ.Underlying().(*types.Struct); isStruct && lvl == 0 {
+				continue
+			}
+			p := s.nonFresh(bi.typ, "(unbox<"+k+"> x)", 0, inner)
+			if p != "" && p != "true" {
+				parts = append(parts, "(=> ((_ is box<"+k+">) x) "+p+")")
+			}
+		}
+		if lvl == 1 {
+			parts = append([]string{"(nf0.Any x)"}, parts...)
+		}
+		fmt.Fprintf(&b, "(define-fun %s ((x Any)) Bool %s)\n", pred, and(parts...))
+	}
+	return b.String()
 }
